@@ -212,8 +212,17 @@ impl Rw {
 }
 
 /// replaces `?` by "record the error in `res` and leave the loop" (collect::<Result<..>> semantics) -- X4(a)
+/// what happens to an `Err` produced by the per-column closure
+#[derive(Clone, Copy, PartialEq)]
+enum ErrMode {
+    Record,      // collect::<Result<..>>(): the first error is the result, iteration stops
+    DropAndStop, // .take_while(Result::is_ok) before collect: iteration stops, the error is discarded
+    Skip,        // .filter(Result::is_ok) before collect: the item is skipped, iteration goes on
+}
 struct TryToBreak {
     res: syn::Ident,
+    mode: ErrMode,
+    k: syn::Ident,
 }
 impl VisitMut for TryToBreak {
     fn visit_expr_mut(&mut self, e: &mut Expr) {
@@ -224,7 +233,12 @@ impl VisitMut for TryToBreak {
         if let Expr::Try(t) = e {
             let inner = &t.expr;
             let res = &self.res;
-            *e = parse_quote!(match #inner { Ok(__v) => __v, Err(__e) => { #res = Err(__e); break; } });
+            let k = &self.k;
+            *e = match self.mode {
+                ErrMode::Record => parse_quote!(match #inner { Ok(__v) => __v, Err(__e) => { #res = Err(__e); break; } }),
+                ErrMode::DropAndStop => parse_quote!(match #inner { Ok(__v) => __v, Err(__e) => { break; } }),
+                ErrMode::Skip => parse_quote!(match #inner { Ok(__v) => __v, Err(__e) => { #k = __vp_succ(#k); continue; } }),
+            };
         }
     }
 }
@@ -281,9 +295,42 @@ impl Rw {
                 let init = l.init.as_ref()?;
                 let (base, links) = unchain(&init.expr);
                 let n = names(&links);
-                if n == ["column_iter_mut", "enumerate", "map", "collect"] || n == ["par_column_iter_mut", "enumerate", "map", "collect"] {
+                // generalised: column_iter_mut().enumerate() [.skip(a)] [.take(b)] .map(closure) [.take_while(Result::is_ok) | .filter(Result::is_ok)] .collect()
+                let is_src = n.len() >= 4 && (n[0] == "column_iter_mut" || n[0] == "par_column_iter_mut") && n[1] == "enumerate" && *n.last().unwrap() == "collect";
+                if is_src {
+                    let mut i = 2;
+                    let mut skip: Option<Expr> = None;
+                    let mut take: Option<Expr> = None;
+                    while i < n.len() && (n[i] == "skip" || n[i] == "take") {
+                        if n[i] == "skip" && skip.is_none() && take.is_none() {
+                            skip = links[i].args.first().cloned();
+                        } else if n[i] == "take" && take.is_none() {
+                            take = links[i].args.first().cloned();
+                        } else {
+                            return None;
+                        }
+                        i += 1;
+                    }
+                    if i >= n.len() || n[i] != "map" {
+                        return None;
+                    }
+                    let map_at = i;
+                    i += 1;
+                    let mut mode = ErrMode::Record;
+                    if i < n.len() && (n[i] == "take_while" || n[i] == "filter") {
+                        let a = norm(&links[i].args.first()?.to_token_stream().to_string());
+                        let is_ok = a == "Result::is_ok" || a.ends_with(".is_ok()");
+                        if !is_ok {
+                            return None;
+                        }
+                        mode = if n[i] == "take_while" { ErrMode::DropAndStop } else { ErrMode::Skip };
+                        i += 1;
+                    }
+                    if i != n.len() - 1 {
+                        return None;
+                    }
                     let res = pat_ident(&l.pat)?;
-                    let clo = match links[2].args.first()? {
+                    let clo = match links[map_at].args.first()? {
                         Expr::Closure(c) => c.clone(),
                         _ => return None,
                     };
@@ -301,7 +348,7 @@ impl Rw {
                             return None;
                         }
                     }
-                    let mut ttb = TryToBreak { res: res.clone() };
+                    let mut ttb = TryToBreak { res: res.clone(), mode, k: k.clone() };
                     for s in body.iter_mut() {
                         ttb.visit_stmt_mut(s);
                     }
@@ -309,8 +356,12 @@ impl Rw {
                     let cid = pat_ident(&cp)?;
                     let mut out: Vec<Stmt> = vec![];
                     out.push(parse_quote!(let mut #res = __vp_ok_unit();));
-                    out.push(parse_quote!(let __n = #base.ncols();));
-                    out.push(parse_quote!(let mut #k: usize = 0;));
+                    let start: Expr = match &skip { Some(a) => parse_quote!(#a), None => parse_quote!(0) };
+                    match &take {
+                        Some(b) => out.push(parse_quote!(let __n = __vp_take_bound(#base.ncols(), #start, #b);)),
+                        None => out.push(parse_quote!(let __n = #base.ncols();)),
+                    }
+                    out.push(parse_quote!(let mut #k: usize = #start;));
                     let w: Stmt = parse_quote!(while #k < __n {
                         let #cpat = #base.__take_column(#k);
                         #(#body)*
@@ -318,6 +369,9 @@ impl Rw {
                         #k = __vp_succ(#k);
                     });
                     out.push(w);
+                    if mode != ErrMode::Record || skip.is_some() || take.is_some() {
+                        self.note("X4a-adapters", line);
+                    }
                     self.note(if n[0] == "par_column_iter_mut" { "X4a-par" } else { "X4a" }, line);
                     return Some(out);
                 }
@@ -572,7 +626,28 @@ fn x1_path(p: &mut syn::Path, qself: &mut Option<syn::QSelf>) -> bool {
     false
 }
 
+#[derive(Clone, Copy, PartialEq, Debug)]
+enum Kind {
+    Opt,
+    Res,
+    Unknown,
+}
+
+/// does the closure body contain `?` or `return` (which would change meaning when the closure is inlined)?
+struct HasEarlyExit(bool);
+impl<'ast> syn::visit::Visit<'ast> for HasEarlyExit {
+    fn visit_expr(&mut self, e: &'ast Expr) {
+        match e {
+            Expr::Try(_) | Expr::Return(_) => self.0 = true,
+            Expr::Closure(_) => {}
+            _ => syn::visit::visit_expr(self, e),
+        }
+    }
+}
+
 struct Pass {
+    kinds: BTreeMap<String, Kind>,
+    field_kinds: BTreeMap<String, Kind>,
     subst: Vec<(String, String)>,
     rw: Rw,
     closure_count: usize,
@@ -582,6 +657,107 @@ struct Pass {
 }
 
 impl Pass {
+    /// syntactic Option/Result classification (rule X12); Unknown means "leave the combinator alone"
+    fn kind_of(&self, e: &Expr) -> Kind {
+        match e {
+            Expr::Paren(p) => self.kind_of(&p.expr),
+            Expr::Reference(r) => self.kind_of(&r.expr),
+            Expr::Path(p) => match p.path.get_ident() {
+                Some(id) => {
+                    let n = id.to_string();
+                    if n == "None" {
+                        Kind::Opt
+                    } else {
+                        *self.kinds.get(&n).unwrap_or(&Kind::Unknown)
+                    }
+                }
+                None => Kind::Unknown,
+            },
+            Expr::Field(f) => match &f.member {
+                syn::Member::Named(id) => *self.field_kinds.get(&id.to_string()).unwrap_or(&Kind::Unknown),
+                _ => Kind::Unknown,
+            },
+            Expr::Call(c) => {
+                if let Expr::Path(p) = &*c.func {
+                    if let Some(id) = p.path.get_ident() {
+                        let n = id.to_string();
+                        if n == "Some" {
+                            return Kind::Opt;
+                        }
+                        if n == "Ok" || n == "Err" {
+                            return Kind::Res;
+                        }
+                    }
+                }
+                Kind::Unknown
+            }
+            Expr::MethodCall(mc) => {
+                let m = mc.method.to_string();
+                match m.as_str() {
+                    "ok" | "err" | "zip" | "filter" | "get" | "first" | "last" | "take" | "checked_sub" | "checked_add" | "xor"
+                    | "try_inverse" | "try_svd" | "try_svd_unordered" | "cholesky" | "from_usize" | "from_f64" | "linear_coefficients"
+                    | "residuals" | "jacobian" | "best_fit" | "position" | "find" | "max" | "min" | "pop" => Kind::Opt,
+                    "ok_or" | "ok_or_else" | "map_err" | "pseudo_inverse" | "solve" | "eval" | "eval_partial_deriv" | "set_params"
+                    | "build" | "try_into" | "try_from" | "try_calculate" | "fit" | "fit_with_statistics" => Kind::Res,
+                    "map" | "and_then" | "as_ref" | "as_mut" | "cloned" | "copied" | "or_else" | "or" | "and" | "inspect" => self.kind_of(&mc.receiver),
+                    _ => Kind::Unknown,
+                }
+            }
+            _ => Kind::Unknown,
+        }
+    }
+
+    /// X12: Option/Result combinators with a closure literal are expanded to the `match` they are defined to be
+    fn x12(&mut self, e: &Expr) -> Option<Expr> {
+        let mc = match e {
+            Expr::MethodCall(mc) => mc,
+            _ => return None,
+        };
+        let m = mc.method.to_string();
+        if !["map", "and_then", "filter", "map_err", "unwrap_or_else", "ok_or_else", "or_else", "is_some_and", "map_or"].contains(&m.as_str()) {
+            return None;
+        }
+        let clo = match mc.args.last() {
+            Some(Expr::Closure(c)) => c.clone(),
+            _ => return None,
+        };
+        let mut hx = HasEarlyExit(false);
+        syn::visit::Visit::visit_expr(&mut hx, &clo.body);
+        if hx.0 {
+            return None;
+        }
+        let kind = self.kind_of(&mc.receiver);
+        let recv = &mc.receiver;
+        let body = &clo.body;
+        let pat: Option<Pat> = clo.inputs.first().map(|p| match p {
+            Pat::Type(pt) => (*pt.pat).clone(),
+            other => other.clone(),
+        });
+        let out: Option<Expr> = match (kind, m.as_str(), mc.args.len(), clo.inputs.len()) {
+            (Kind::Opt, "map", 1, 1) => Some(parse_quote!(match #recv { Some(#pat) => Some(#body), None => None })),
+            (Kind::Opt, "and_then", 1, 1) => Some(parse_quote!(match #recv { Some(#pat) => #body, None => None })),
+            (Kind::Opt, "filter", 1, 1) => Some(parse_quote!(match #recv { Some(__v) => if { let #pat = &__v; #body } { Some(__v) } else { None }, None => None })),
+            (Kind::Opt, "unwrap_or_else", 1, 0) => Some(parse_quote!(match #recv { Some(__v) => __v, None => #body })),
+            (Kind::Opt, "ok_or_else", 1, 0) => Some(parse_quote!(match #recv { Some(__v) => Ok(__v), None => Err(#body) })),
+            (Kind::Opt, "or_else", 1, 0) => Some(parse_quote!(match #recv { Some(__v) => Some(__v), None => #body })),
+            (Kind::Opt, "is_some_and", 1, 1) => Some(parse_quote!(match #recv { Some(#pat) => #body, None => false })),
+            (Kind::Opt, "map_or", 2, 1) => {
+                let d = &mc.args[0];
+                Some(parse_quote!(match #recv { Some(#pat) => #body, None => #d }))
+            }
+            (Kind::Res, "map", 1, 1) => Some(parse_quote!(match #recv { Ok(#pat) => Ok(#body), Err(__e) => Err(__e) })),
+            (Kind::Res, "and_then", 1, 1) => Some(parse_quote!(match #recv { Ok(#pat) => #body, Err(__e) => Err(__e) })),
+            (Kind::Res, "map_err", 1, 1) => Some(parse_quote!(match #recv { Ok(__v) => Ok(__v), Err(#pat) => Err(#body) })),
+            (Kind::Res, "unwrap_or_else", 1, 1) => Some(parse_quote!(match #recv { Ok(__v) => __v, Err(#pat) => #body })),
+            (Kind::Res, "or_else", 1, 1) => Some(parse_quote!(match #recv { Ok(__v) => Ok(__v), Err(#pat) => #body })),
+            _ => None,
+        };
+        if out.is_some() {
+            self.rw.note("X12", e.span().start().line);
+        }
+        out
+    }
+
     fn proof_stmt(k: usize) -> Stmt {
         let lit = proc_macro2::Literal::usize_unsuffixed(k);
         parse_quote!(__vp_proof!(#lit);)
@@ -590,6 +766,15 @@ impl Pass {
 
 impl VisitMut for Pass {
     fn visit_block_mut(&mut self, b: &mut Block) {
+        // X12 bookkeeping: Option/Result kind of every `let x = init;` of this block, from the text as written
+        for st in b.stmts.iter() {
+            if let Stmt::Local(l) = st {
+                if let (Some(id), Some(init)) = (pat_ident(&l.pat), l.init.as_ref()) {
+                    let k = self.kind_of(&init.expr);
+                    self.kinds.insert(id.to_string(), k);
+                }
+            }
+        }
         // X4 at statement level (top-down), then recurse
         let mut out: Vec<Stmt> = vec![];
         for st in b.stmts.drain(..) {
@@ -678,6 +863,10 @@ impl VisitMut for Pass {
 
     fn visit_expr_mut(&mut self, e: &mut Expr) {
         let line = e.span().start().line;
+        // X12 first (pre-order): the closure literal of an Option/Result combinator disappears into a match
+        if let Some(n) = self.x12(e) {
+            *e = n;
+        }
         // pre-order handling of loops and closures so ordinals follow source order
         match e {
             Expr::ForLoop(f) => {
@@ -937,7 +1126,17 @@ pub fn extract(ast: &syn::File, file: &str, spec: &FnSpec, pr: &mut Printer) -> 
         .get("subst")
         .map(|s| s.split(',').filter_map(|kv| kv.split_once(':').map(|(a, b)| (a.to_string(), b.to_string()))).collect())
         .unwrap_or_default();
+    let mut field_kinds: BTreeMap<String, Kind> = BTreeMap::new();
+    if let Some(k) = spec.attrs.get("kinds") {
+        for kv in k.split(',') {
+            if let Some((a, b)) = kv.split_once(':') {
+                field_kinds.insert(a.to_string(), if b == "Option" { Kind::Opt } else if b == "Result" { Kind::Res } else { Kind::Unknown });
+            }
+        }
+    }
     let mut pass = Pass {
+        kinds: BTreeMap::new(),
+        field_kinds,
         subst,
         rw: Rw { log: vec![], try_match: spec.attrs.contains_key("try_match"), err: None },
         closure_count: 0,
